@@ -262,15 +262,22 @@ func renderBody(body []*Stmt, depth int, l *Layout, out *[]RLine) {
 			}
 			add(depth, cmd(l, "call "+l.pad("kw")+s.Fn+"("+strings.Join(args, ", ")+")"), "call", true)
 		case SCommand:
-			words := []string{s.Cmd}
-			for _, a := range s.CmdArgs {
+			var tb strings.Builder
+			tb.WriteString(s.CmdLead + s.Cmd)
+			for i, a := range s.CmdArgs {
+				sep := " " + l.pad("op")
+				if i < len(s.CmdSeps) && s.CmdSeps[i] != "" {
+					sep = s.CmdSeps[i]
+				}
+				tb.WriteString(sep)
 				if a.E != nil {
-					words = append(words, "{"+RenderExpr(a.E, l)+"}")
+					tb.WriteString("{" + RenderExpr(a.E, l) + "}")
 				} else {
-					words = append(words, a.Word)
+					tb.WriteString(a.Word)
 				}
 			}
-			text := cmd(l, strings.Join(words, " "+l.pad("op")))
+			tb.WriteString(s.CmdTrail)
+			text := cmd(l, tb.String())
 			for _, t := range s.CmdTags {
 				text += " #" + t
 			}
